@@ -117,6 +117,7 @@ Definition run_filedata (op : Z) (a : args) : args :=
      nothing of p changed); a history of operations *)
   | 1408 => match fd_unpack (lst 0 a) with
             | Ok p => [0] :: [1] :: fd_state p ++ fd_run (fw_init p (h_conf (fd_hdr p))) (skipn 2 a)
+                      ++ fd_state p                            (* the same octets decoded once more at the end *)
             | Err e => ret_err e
             end
   (* Spec side (independent oracle): layout of (conf fields, params) *)
